@@ -481,6 +481,10 @@ async fn retry_case(seed: u64, case: usize, dbroot: &str, e: &mut Emit) -> (Vec<
     let r = sy.get_parent_block(&x1).await; settle().await;
     let m = decode(network::verif::tap_drain());
     flags.push(matches!(r, Ok(None)) && m.len() == 1 && m[0].0 == com.address(&x1.author).unwrap() && m[0].1 == p1.digest() && m[0].2 == name);
+    // (3 s of virtual time pass: the later request for p2 is then issued in the middle of a retry period, and the tick due 5 s
+    //  after the synchronizer started must still fire on time -- a fresh request must not postpone the retries of older ones)
+    tokio::time::advance(Duration::from_millis(3_000)).await; settle().await;
+    let early = decode(network::verif::tap_drain());
     // 2. park x2 (same parent) and x1 again: nothing is sent; park y: one request for p2 to the author of y
     let r2 = sy.get_parent_block(&x2).await; settle().await;
     let r3 = sy.get_parent_block(&x1).await; settle().await;
@@ -491,9 +495,10 @@ async fn retry_case(seed: u64, case: usize, dbroot: &str, e: &mut Emit) -> (Vec<
     // 3. ticks: the synchronizer compares wall-clock milliseconds (delay 0): let real time pass, then advance the paused clock
     let ticks = rng.gen_range(2, 5);
     let mut ok3 = true;
-    for _ in 0..ticks {
+    if !early.is_empty() { ok3 = false; }
+    for t in 0..ticks {
         std::thread::sleep(Duration::from_millis(2));
-        tokio::time::advance(Duration::from_millis(5_001)).await; settle().await;
+        tokio::time::advance(Duration::from_millis(if t == 0 { 2_001 } else { 5_000 })).await; settle().await;
         let m = decode(network::verif::tap_drain());
         if !is_rebroadcast(&m, &[p1.digest(), p2.digest()]) { ok3 = false; }
     }
